@@ -27,6 +27,9 @@ type Case struct {
 	Random   [][]int      // random partitions (sorted cut offsets)
 	OnlyCuts []int        `json:",omitempty"` // replay of one fragmentation only
 	OnlyEOF  bool         `json:",omitempty"`
+	// AllTruncations: additionally every truncation of the file is read from memory and in
+	// pieces (single read and byte-wise, each with the last bytes delivered together with EOF)
+	AllTruncations bool `json:",omitempty"`
 }
 
 type outcome struct {
@@ -156,7 +159,7 @@ func run(c Case) (res ev.Result) {
 			res.Violation = s
 			return
 		}
-		for sp := 1; sp < len(b); sp++ {
+		for _, sp := range splitPoints(len(b), ranges) {
 			if s := try(fmt.Sprintf("split at %d", sp), []int{sp}, eof, &faultio.FragReader{Data: b, Cuts: []int{sp}, EOFWithData: eof}); s != "" {
 				res.Violation = s
 				return
@@ -169,7 +172,77 @@ func run(c Case) (res ev.Result) {
 			}
 		}
 	}
+	if c.AllTruncations {
+		res.Classes = append(res.Classes, "all-truncations")
+		for _, cut := range splitPoints(len(full)+1, ranges) {
+			tb := full[:cut]
+			twant := readAll(bytes.NewReader(tb))
+			if twant.kind == "panic" {
+				res.Violation = fmt.Sprintf("truncated to %d bytes, reading from memory: %s", cut, twant.detail)
+				return
+			}
+			for _, r := range []struct {
+				what string
+				rd   io.Reader
+			}{
+				{"single read delivered together with EOF", &faultio.FragReader{Data: tb, EOFWithData: true}},
+				{"one byte per read", &faultio.OneByteReader{Data: tb}},
+				{"last byte delivered together with EOF", &faultio.FragReader{Data: tb, Cuts: []int{cut - 1}, EOFWithData: true}},
+				{"two halves", &faultio.FragReader{Data: tb, Cuts: []int{cut / 2}}},
+			} {
+				n++
+				nt++
+				if d := diff(readAll(r.rd), twant); d != "" {
+					res.Violation = fmt.Sprintf("file truncated to %d of %d bytes, %s: %s", cut, len(full), r.what, d)
+					return
+				}
+			}
+		}
+	}
 	return
+}
+
+// splitPoints returns every offset 1..n-1 for small inputs; for large ones the offsets
+// around every field boundary, the first and last 64 and a stride over the rest.
+func splitPoints(n int, ranges [][2]int) []int {
+	if n <= 1500 {
+		out := make([]int, 0, n)
+		for i := 1; i < n; i++ {
+			out = append(out, i)
+		}
+		return out
+	}
+	set := map[int]bool{}
+	add := func(x int) {
+		if x >= 1 && x < n {
+			set[x] = true
+		}
+	}
+	for i := 1; i < 64; i++ {
+		add(i)
+		add(n - i)
+	}
+	for _, r := range ranges {
+		for d := -2; d <= 2; d++ {
+			add(r[0] + d)
+			add(r[1] + d)
+		}
+		add((r[0] + r[1]) / 2)
+	}
+	for _, edge := range []int{512, 4096, 8192, 32768, 65536} {
+		for d := -1; d <= 1; d++ {
+			add(edge + d)
+		}
+	}
+	for i := 1; i < n; i += n/200 + 1 {
+		add(i)
+	}
+	out := make([]int, 0, len(set))
+	for x := range set {
+		out = append(out, x)
+	}
+	sort.Ints(out)
+	return out
 }
 
 func genCase(t *rapid.T) Case {
@@ -178,18 +251,27 @@ func genCase(t *rapid.T) Case {
 	if rapid.Bool().Draw(t, "grammar?") {
 		o := gen.AllFreedoms
 		o.MaxPayload = 200
+		if rapid.IntRange(0, 9).Draw(t, "bigPayloads?") == 0 {
+			o.MaxPayload = 70000
+		}
 		o.MaxEvents = 8
 		o.MaxTracks = 3
 		f := gen.File(t, o)
 		c.Grammar = &f
 		n = len(smfref.Build(f))
 	} else {
-		a := gen.API(t, gen.APIOpts{MaxTracks: 3, MaxOps: 6, MaxPayload: 200, MaxDelta: 0x0FFFFFFF})
+		mp := 200
+		if rapid.IntRange(0, 9).Draw(t, "bigPayloads?") == 0 {
+			mp = 70000
+		}
+		a := gen.API(t, gen.APIOpts{MaxTracks: 3, MaxOps: 6, MaxPayload: mp, MaxDelta: 0x0FFFFFFF})
 		c.API = &a
 		n = 64
 	}
 	if rapid.IntRange(0, 2).Draw(t, "truncate?") == 0 {
 		c.TruncAt = rapid.IntRange(0, n).Draw(t, "truncAt")
+	} else {
+		c.AllTruncations = rapid.Bool().Draw(t, "allTruncations")
 	}
 	k := rapid.IntRange(1, 5).Draw(t, "nRandom")
 	for i := 0; i < k; i++ {
@@ -201,7 +283,7 @@ func genCase(t *rapid.T) Case {
 }
 
 var files = ev.NewCheck("C09", "files",
-	"rapid: valid files from the byte-level grammar (C02 domain, payloads <= 200) and from the library's writer (C01 domain), whole or truncated at a drawn offset; per file: one-byte reads, a single read, EVERY single split point, 1..5 random partitions, each with and without the final bytes delivered together with io.EOF; readers never return 0 bytes without error; oracle = differential against smf.ReadFrom(bytes.Reader): both fail or both succeed, same failure kind (nil / ErrMissing / other), deep-equal value (format, division, events, tempo map); the per-fragmentation counts are in part 'fragmentations'",
+	"rapid: valid files from the byte-level grammar (C02 domain, payloads <= 200) and from the library's writer (C01 domain), whole or truncated at a drawn offset (for half of the whole files additionally EVERY truncation, each read from memory vs. single read with EOF, byte-wise, last byte together with EOF, two halves); payloads <= 200 bytes, in one case of ten up to 70000 bytes (crossing the 4 KiB / 64 KiB buffer thresholds; for files > 1500 bytes the split points are all offsets around field boundaries and size thresholds plus a stride); per file: one-byte reads, a single read, EVERY single split point, 1..5 random partitions, each with and without the final bytes delivered together with io.EOF; readers never return 0 bytes without error; oracle = differential against smf.ReadFrom(bytes.Reader): both fail or both succeed, same failure kind (nil / ErrMissing / other), deep-equal value (format, division, events, tempo map); the per-fragmentation counts are in part 'fragmentations'",
 	genCase, run)
 
 func TestPropFiles(t *testing.T) { files.Rapid(t, 40, 400) }
